@@ -26,8 +26,30 @@ c06 = importlib.util.module_from_spec(_spec)
 _spec.loader.exec_module(c06)
 
 
-def build():
-    return vlib.build_harness("c01_total", ["c01_total.cpp"], libs=("core", "filesystem", "options"))
+# own section groups of harness/c01_total.cpp (macro C01_GROUP = id): (id, section = signature name)
+OWN_GROUPS = [(1, "containers"), (2, "grid"), (3, "enum_string"), (4, "dynamic"), (5, "from_range"), (6, "extract"), (7, "streams"),
+              (8, "runtime_index"), (9, "codecvt"), (10, "filesystem"), (11, "options"), (12, "parse"), (13, "io"), (14, "enum_extract"),
+              (15, "parse_help"), (16, "grammar"), (17, "optional"), (18, "containers2"), (19, "env_args"), (20, "parse_stream")]
+# the function(s) a section drives, for the signature of a process that died without naming a call
+SECTION_FN = {"containers": "at_optional", "containers2": "at_optional", "grid": "grid_at_optional", "enum_string": "from_string",
+              "dynamic": "dynamic", "from_range": "from_range", "extract": "extract_int", "streams": "stream_to_string",
+              "runtime_index": "runtime_index", "codecvt": "narrow", "filesystem": "file_size", "options": "options_parse",
+              "parse": "parse_string", "io": "io_get", "enum_extract": "extract_enum", "parse_help": "parse_help",
+              "grammar": "grammar_parse_string", "optional": "optional_from", "env_args": "getenv", "parse_stream": "parse_stream"}
+
+
+def section_fn(s):
+    return c06.fn_of_section(s) if s.startswith("math:") else SECTION_FN.get(s, s)
+
+
+def build(ctx):
+    """One binary for every section; if the translation unit does not compile against the tree under test, one binary
+    per section group (c06.build_units): a group of registered functions that does not compile is a VIOLATION
+    C01:<group>:does-not-compile - a function that rejects the well-formed arguments the registry passes cannot "return
+    normally for every argument value" - the others are run and judged."""
+    units = [(("C01_GROUP=%d" % g, "C06_GROUP=-1"), n, True) for g, n in OWN_GROUPS]
+    units += [(("C01_GROUP=-1", "C06_GROUP=%d" % g), "math_" + n, True) for g, n, sc in c06.GROUPS]
+    return c06.build_units(ctx, PID, "c01_total", "c01_total.cpp", ("core", "filesystem", "options"), units)
 
 
 def sections_of(binary):
@@ -55,7 +77,7 @@ def corrupt(r):
     if r["w"] == 1:
         r["ex"] = 1
         return r
-    if r["f"] in ("options_parse", "grammar_parse_string") or (r["f"] == "parse_string" and not (r["g"] in ("int", "uint") and r["sk"] == "none")):
+    if r["f"] in ("options_parse", "grammar_parse_string", "parse_stream") or (r["f"] == "parse_string" and not (r["g"] in ("int", "uint") and r["sk"] == "none")):
         r["out"], r["exn"] = "exception", "std::bad_alloc"
         return r
     if r["f"] in ("extract_uint", "narrow", "io_get", "io_peek", "parse_help", "grammar_parse_string", "gmtime",
@@ -125,22 +147,27 @@ def report(ctx, bads):
 
 def run_sections(ctx, binary, sections, tag):
     runs = record(ctx, binary, sections, tag)
-    recs = c06.collect(ctx, runs, PID)
-    if len(recs) == 0:
+    recs = c06.collect(ctx, runs, PID, section_fn)
+    if len(recs) == 0 and not c06.rejected_anything(ctx):
         raise vlib.Infra("the harness recorded nothing")
-    ctx.evaluations += count(ctx, recs)
     return recs
 
 
 def run(ctx):
-    binary = build()
-    sections = sections_of(binary)
-    recs = run_sections(ctx, binary, sections, "rec")
-    c06.sample(ctx, recs)
-    bads = c06.judge(ctx, recs, JUDGE, "c01")
-    if report(ctx, bads) == 0:
-        # vacuity guard of the judge (presupposes correct records: only when all were accepted)
-        c06.selftest(ctx, recs, JUDGE, "c01self", corrupt, 60)
+    binaries = build(ctx)
+    recs = run_sections(ctx, binaries, None, "rec")
+    sections = sorted(set(recs.sections))
+
+    def judge_all():
+        if len(recs) == 0:
+            return
+        ctx.evaluations += count(ctx, recs)
+        c06.sample(ctx, recs)
+        bads = c06.judge(ctx, recs, JUDGE, "c01")
+        if report(ctx, bads) == 0 and c06.selftest_applicable(ctx):
+            # vacuity guard of the judge (presupposes correct and complete records: only when nothing was rejected)
+            c06.selftest(ctx, recs, JUDGE, "c01self", corrupt, 60)
+    c06.after_verdict(ctx, judge_all)
     ctx.traces_validated += ctx.extra.get("judge_chunks", 0)
     ctx.extra["records"] = len(recs)
     ctx.extra["sections"] = sections
@@ -164,12 +191,14 @@ def run(ctx):
 
 
 def replay(ctx, payload):
-    binary = build()
-    secs = payload["payload"].get("sections") or sections_of(binary)
+    binaries = build(ctx)
+    secs = payload["payload"].get("sections") or None
     ctx.tier = payload.get("tier", ctx.tier)
     ctx.seed = payload.get("seed", ctx.seed)
-    recs = run_sections(ctx, binary, secs, "replay")
-    report(ctx, c06.judge(ctx, recs, JUDGE, "c01r"))
+    recs = run_sections(ctx, binaries, secs, "replay")
+    if len(recs):
+        ctx.evaluations += count(ctx, recs)
+        report(ctx, c06.judge(ctx, recs, JUDGE, "c01r"))
     ctx.traces_validated += ctx.extra.get("judge_chunks", 0)
     ctx.count_class("replay")
     ctx.rule = "replay: the harness section(s) of the saved rejection are recorded and judged again"
